@@ -136,7 +136,8 @@ fn run_sc(sc: &Sc) -> Res {
     if t1 < t0 { discarded = true; }
     if wedged {
         let imp = "WEDGED".to_string();
-        viol.push(format!("[C06,C16] receiver blocked in {:?} (queued timer {:?} ms) was not woken by {:?} from another thread within 2.5 s (released by a rescue event, got {:?})", sc.recv, sc.dq.map(|d| d / MS), sc.wake, res));
+        // (a timer that is never delivered although its deadline passed is also C08's "delivered once after the deadline")
+        viol.push(format!("[C06,C16{}] receiver blocked in {:?} (queued timer {:?} ms) was not woken by {:?} from another thread within 2.5 s (released by a rescue event, got {:?})", if matches!(sc.wake, Wake::Timer(_)) || sc.dq.is_some() { ",C08" } else { "" }, sc.recv, sc.dq.map(|d| d / MS), sc.wake, res));
         return Res { case: labels.join(" "), imp, violations: viol, discarded: false };
     }
     let imp = match res { Some(e) => format!("e:{}", e), None => "n".into() };
@@ -167,7 +168,7 @@ fn run_sc(sc: &Sc) -> Res {
             ].iter().flatten().cloned().min();
             if let Some(t) = deliverable_before {
                 if t + margin < u && !discarded {
-                    viol.push(format!("[C16] receive_timeout returned None although an event ({:?}, queued timer {:?}) became deliverable {} ms before the timeout", sc.wake, sc.dq.map(|d| d / MS), (u - t) / MS as u128));
+                    viol.push(format!("[C16{}] receive_timeout returned None although an event ({:?}, queued timer {:?}) became deliverable {} ms before the timeout", if matches!(sc.wake, Wake::Timer(_)) || q_live { ",C08" } else { "" }, sc.wake, sc.dq.map(|d| d / MS), (u - t) / MS as u128));
                 }
             }
         }
